@@ -269,6 +269,8 @@ class Engine(Interp):
                     continue
                 # extras/defs may mention the destination itself (x = x + 1): lin computed before the kill
                 self.write_loc(s, dloc, val, lin, src)
+                if stmt["rv"]["k"] == "agg" and self.hooks.get("aggregate"):
+                    self.emit("aggregate", st=s, frame=frame, rv=stmt["rv"], span=mirlib.Span(stmt["span"]))
                 if defn is not None and "elem" not in dloc[1]:
                     if not any(v[0] == dloc[0] and v[1][:len(dloc[1])] == dloc[1] for v in _defvars(defn)):
                         s.defs[dloc] = defn
@@ -499,13 +501,20 @@ class Engine(Interp):
                         for v in f[1].terms:
                             if v[0][0] == "L" and v[0][1] == uid:
                                 vs.append(v)
-        st.kill_vars(vs)
+        st.kill_vars(vs, keep_bounds=True)
         dead = [k for k, d in st.defs.items() if any(v[0][0] == "L" and v[0][1] == uid for v in _defvars(d))]
         for k in dead:
             del st.defs[k]
         for k in cells:
             st.kill_guards(k, (), True)
             del st.cells[k]
+        # temporaries (slice views, iterator items) created by this frame, unless still referenced
+        tcells = [k for k in st.cells if k[0] == "T" and k[1] == uid]
+        if tcells:
+            live = _referenced_cells(st)
+            for k in tcells:
+                if k not in live:
+                    st.kill_cell(k)
 
     def recursive_call(self, c, body):
         s = self.summaries.get(body.key) or self.summaries.get(body.path)
@@ -590,7 +599,8 @@ class Engine(Interp):
                 t = body.blocks[b]["term"]
                 if t["k"] == "call":
                     mod.add(t["dest"]["local"])
-            loops[h] = (scc, mod)
+            has_next = any(body.blocks[b]["term"]["k"] == "call" and (mirlib.callee_name(body.blocks[b]["term"]) or "").endswith("Iterator::next") for b in scc)
+            loops[h] = (scc, mod, has_next)
         info = loops
         self._loop_heads[body.key] = info
         return info
@@ -612,8 +622,40 @@ class Engine(Interp):
             self._thresholds[body.key] = t
         return t
 
-    def loop_key(self, st, frame, mod):
+    def template_vars(self, st, frame, mod):
+        """scalars whose pairwise order is tried as a loop invariant: loop-carried integer locals and the lengths of
+        the containers that frame locals refer to"""
+        out = []
+        for l in sorted(mod):
+            v = st.cells.get(frame.cell(l))
+            if isinstance(v, Int) and v.bits > 1:
+                out.append((frame.cell(l), ()))
+        for i in range(len(frame.body.locals)):
+            v = st.cells.get(frame.cell(i))
+            if isinstance(v, Ref) and v.cell is not None:
+                t = self.read_loc(st, (v.cell, v.path))
+                if isinstance(t, Arr) and isinstance(t.len, Int):
+                    lv = (v.cell, v.path + ("len",))
+                    if lv not in out:
+                        out.append(lv)
+            if len(out) >= 10:
+                break
+        return out
+
+    def loop_key(self, st, frame, mod, has_next=False):
         key = []
+        if has_next:
+            # the loop is driven by an iterator: unroll only if some loop-carried iterator has a concrete length
+            conc = False
+            for l in mod:
+                v = st.cells.get(frame.cell(l))
+                if isinstance(v, Iter):
+                    if v.ikind == "slice" and isinstance(v.remaining, Int) and v.remaining.is_const():
+                        conc = True
+                    if v.ikind == "range" and isinstance(v.end, Int) and v.end.is_const() and isinstance(v.start, Int) and v.start.is_const():
+                        conc = True
+            if not conc:
+                return ()
         for l in sorted(mod):
             v = st.cells.get(frame.cell(l))
             if v is None:
@@ -635,6 +677,7 @@ class Engine(Interp):
         """fixpoint over one body from entry state; returns list of exit states (one per tag).
         For promoted bodies (`in_place`), the value of _0 is returned instead."""
         body = frame.body
+        self.frame_bodies[frame.uid] = body
         loops = self.loop_info(body)
         thresholds = self.thresholds(body)
         in_states = {}
@@ -665,14 +708,14 @@ class Engine(Interp):
             # maintain loop components of the tag
             tag = s.tag
             if from_bb is not None:
-                for h, (scc, mod) in loops.items():
+                for h, (scc, mod, _hn) in loops.items():
                     if from_bb in scc and bb not in scc:
                         tag = tuple(x for x in tag if not (isinstance(x, tuple) and len(x) == 4 and x[0] == "L" and x[1] == frame.uid and x[2] == h))
             if bb in loops:
-                scc, mod = loops[bb]
+                scc, mod, has_next = loops[bb]
                 tag = tuple(x for x in tag if not (isinstance(x, tuple) and len(x) == 4 and x[0] == "L" and x[1] == frame.uid and x[2] == bb))
                 if (body.key, bb) not in self.part_overflow:
-                    lk = self.loop_key(s, frame, mod)
+                    lk = self.loop_key(s, frame, mod, has_next)
                     nkeys = sum(1 for (b2, t2) in in_states if b2 == bb)
                     if nkeys >= PART_CAP:
                         self.part_overflow.add((body.key, bb))
@@ -691,8 +734,12 @@ class Engine(Interp):
             visits[key] += 1
             w = visits[key] > WIDEN_AFTER and (bb in loops)
             r0a, r0b = old.cells.get(frame.cell(0)), s.cells.get(frame.cell(0))
+            th = thresholds if visits[key] <= WIDEN_AFTER + 3 else ()
             tmpl = (bb in loops) or (isinstance(r0a, Enum) and isinstance(r0b, Enum) and set(r0a.variants) != set(r0b.variants))
-            j = join_states(old, s, widen=w, thresholds=thresholds, templates=tmpl)
+            tv = ()
+            if bb in loops:
+                tv = self.template_vars(s, frame, loops[bb][1])
+            j = join_states(old, s, widen=w, thresholds=th, templates=tmpl, template_vars=tv)
             j.tag = tag
             in_states[key] = j
             if key not in work:
@@ -731,6 +778,8 @@ class Engine(Interp):
                 for tgt, s2 in succs:
                     if tgt == "return":
                         self.edges[body.key].add((bb, "return"))
+                        if self.hooks.get("return"):
+                            self.emit("return", frame=frame, st=s2)
                         # strip this frame's loop tags
                         t2 = tuple(x for x in s2.tag if not (isinstance(x, tuple) and len(x) == 4 and x[0] in ("L", "it") and x[1] == frame.uid))
                         if strip_all:
@@ -758,6 +807,58 @@ class Engine(Interp):
                     st_in.cells[k] = val
             return v
         return outs
+
+
+def _refs_in(v, out, depth=0):
+    if depth > 6:
+        return
+    if isinstance(v, Ref):
+        if v.cell is not None:
+            out.add(v.cell)
+    elif isinstance(v, Struct):
+        for f in v.fields:
+            _refs_in(f, out, depth + 1)
+    elif isinstance(v, Closure):
+        for f in v.captures:
+            _refs_in(f, out, depth + 1)
+    elif isinstance(v, Enum):
+        for fs in v.variants.values():
+            for f in fs:
+                _refs_in(f, out, depth + 1)
+    elif isinstance(v, Arr):
+        _refs_in(v.elem, out, depth + 1)
+        for c in v.cells.values():
+            _refs_in(c, out, depth + 1)
+        if v.view_of is not None:
+            out.add(v.view_of[0])
+    elif isinstance(v, Iter):
+        if v.elem is not None:
+            _refs_in(v.elem, out, depth + 1)
+        if isinstance(v.extra, tuple) and len(v.extra) == 2 and v.extra[1] is not None:
+            out.add(v.extra[1][0])
+
+
+def _referenced_cells(st):
+    out = set()
+    for k, v in st.cells.items():
+        if k[0] == "T":
+            continue
+        _refs_in(v, out)
+    # transitive through temporaries
+    work = [c for c in out if c[0] == "T"]
+    while work:
+        c = work.pop()
+        v = st.cells.get(c)
+        if v is None:
+            continue
+        new = set()
+        _refs_in(v, new)
+        for n in new:
+            if n not in out:
+                out.add(n)
+                if n[0] == "T":
+                    work.append(n)
+    return out
 
 
 def _stable_operand(o, body):
